@@ -92,6 +92,36 @@ def replay_fit(model, with_tau=False, inf_hi=False):
     return bool(problems), {"what": "; ".join(problems) or "fit stays inside the bounds", "inputs": m}
 
 
+def replay_lsq(model, with_tau=True):
+    """'M the bounded least-squares optimum': with tau supplied the optimum is closed-form, M* = sum(q f)/sum(f f) with
+    f = rf(t/tau), clipped to the M bounds.  Data generated with another tau and a few mis-reported samples, so that the
+    residual at the optimum is not zero and the kind of loss matters.  With tau fitted the library's result is compared
+    with scipy's plain curve_fit on the same problem (sum of squares not larger)."""
+    import numpy as np
+    from scipy.optimize import curve_fit as cf
+    from bluebonnet.forecast import Bounds, ForecasterOnePhase
+    t = np.linspace(5.0, 900.0, 40)
+    q = 1234.0 * _rf_real(t / 321.0)
+    q[5::7] *= 0.6
+    problems = []
+    for tau_in, (M0, M1) in ((120.0, (10.0, 1e5)), (800.0, (10.0, 1e5)), (321.0, (10.0, 1e5)), (120.0, (1500.0, 1e5))):
+        f = ForecasterOnePhase(_rf_real, Bounds(M=(M0, M1), tau=(20.0, 5000.0)))
+        if with_tau:
+            f.fit(t, q, tau=tau_in)
+            g = _rf_real(t / tau_in)
+            want = float(np.clip(np.dot(q, g) / np.dot(g, g), M0, M1))
+            if abs(f.M_ - want) > 1e-6 * want:
+                problems.append(f"tau={tau_in} supplied, M bounds ({M0}, {M1}): M_ = {f.M_!r}, bounded least-squares optimum {want!r}")
+        else:
+            f.fit(t, q)
+            ref, _ = cf(lambda tt, M, tau: M * _rf_real(tt / tau), t, q, [q[-1] * 2, t[-1] * 5], bounds=((M0, 20.0), (M1, 5000.0)))
+            sse = lambda M, tau: float(np.sum((M * _rf_real(t / tau) - q) ** 2))
+            if sse(f.M_, f.tau_) > sse(*ref) * (1 + 1e-6):
+                problems.append(f"tau fitted, M bounds ({M0}, {M1}): sum of squares {sse(f.M_, f.tau_)!r} at (M_, tau_) = ({f.M_!r}, {f.tau_!r}) vs {sse(*ref)!r} "
+                                f"at scipy's plain least-squares fit {ref.tolist()}")
+    return bool(problems), {"what": "; ".join(problems[:2]) or "fit is the bounded least-squares optimum", "inputs": {}}
+
+
 def job_scaling(job, n):
     mod = _load()
     job.encoded(mod, "ForecasterOnePhase.forecast_cum", "_forecast_cum_onephase")
@@ -207,6 +237,16 @@ def job_fit(job, n, inf_hi=False):
                 inside += [T.b_lt(P(f.tau_), P(vs["tau0"]))] + ([] if inf_hi else [T.b_lt(P(tau1), P(f.tau_))])
             job.prove(f"fit[{tag}]/fitted M_, tau_ inside the configured bounds" + (" and supplied tau unchanged" if with_tau else "") + f"[path{k}]",
                       pr.pc + [T.b_or(*inside)], bound=f"{n} samples", replay=rp)
+            # the optimiser is asked for the plain problem: unweighted residuals, linear loss (scipy's defaults); anything else
+            # (sigma, loss=..., f_scale=...) minimises another functional and M is no longer the least-squares optimum
+            odd = {k: v for k, v in c["kw"].items() if not (k == "loss" and v == "linear")}
+            if c["sigma"] is not None:
+                odd["sigma"] = "given"
+            if odd:
+                job._violation(f"fit[{tag}]/optimiser asked for plain least squares[path{k}]", {},
+                               {"what": f"curve_fit called with {sorted(odd)}", "replayer": "replay_lsq", "replayer_kwargs": {"with_tau": with_tau}}, None)
+            else:
+                job.record(f"fit[{tag}]/optimiser asked for plain least squares[path{k}]", "unsat", 0.0, note="no sigma / loss / f_scale / extra least_squares options")
             # the model closure handed to curve_fit
             Mq, tq = fresh("Mq", pos=True), fresh("tq", pos=True)
             tarr = SymArray(ts, "f8")
